@@ -99,6 +99,8 @@ def oracle_case(case):
     """failure dict or None"""
     if case.get('via') == 'effect':
         return oracle_effect(case)
+    if case.get('via') == 'scope':
+        return oracle_scope(case)
     src, mode, via = case['src'], case['mode'], case.get('via', 'raw')
     try:
         if via == 'api':
@@ -213,6 +215,79 @@ def oracle_effect(case):
     return None
 
 
+# -- name resolution of code blocks against CPython's own compiler: every name the compiler resolves as a
+#    local (cell, free) variable of a function must still be one in the code genshi compiles, and every other
+#    name load must go through the lookup functions
+
+SCOPE_HELPERS = frozenset(['__data__', '_lookup_name', '_lookup_attr', '_lookup_item', 'UndefinedError'])
+# known finding C03-constant-names: these two names are never looked up
+SCOPE_KNOWN = frozenset(['NotImplemented', 'Ellipsis'])
+SCOPE_IMPLICIT = frozenset(['__name__', '__qualname__', '__module__', '__annotations__', '__classcell__', '__class__', '__doc__'])
+
+
+def _code_children(c):
+    import types
+    return [k for k in c.co_consts if isinstance(k, types.CodeType)]
+
+
+def scope_problems(src):
+    """('skip' | 'rejected' | 'ok' | 'bad', problems)"""
+    import dis
+    from genshi.template.eval import Suite
+    try:
+        ref = compile(src, '<reference>', 'exec')
+    except (SyntaxError, ValueError, RecursionError, MemoryError):
+        return 'skip', []
+    try:
+        real = Suite(src).code
+    except Exception:  # noqa: rejected
+        return 'rejected', []
+    problems = []
+    skipped = []
+
+    def walk(o, t, path):
+        oc, tc = _code_children(o), _code_children(t)
+        if [c.co_name for c in oc] != [c.co_name for c in tc]:
+            # the compiler drops unreachable code (after an unconditional raise / return) and with it the
+            # code objects in it, not always alike for the two texts: not judged (the tree oracle compares
+            # the structure)
+            skipped.append(path)
+            return
+        ins = list(dis.get_instructions(t))
+        if t.co_flags & 1:      # CO_OPTIMIZED: function, lambda, generator expression
+            lo = set(o.co_varnames) | set(o.co_cellvars) | set(o.co_freevars)
+            lt = set(t.co_varnames) | set(t.co_cellvars) | set(t.co_freevars)
+            if lo != lt:
+                problems.append(['locals', path, sorted(lo - lt), sorted(lt - lo)])
+            g = set(i.argval for i in ins if i.opname in ('LOAD_GLOBAL', 'STORE_GLOBAL', 'DELETE_GLOBAL', 'LOAD_NAME'))
+            g -= SCOPE_HELPERS | SCOPE_KNOWN
+            # (a plain `super` is what the compiler needs to see for the zero-argument form)
+            g -= set(['super']) if '__class__' in lt else set()
+            if g:
+                problems.append(['not-looked-up', path, sorted(g)])
+        else:                   # module / class body: names bound there may be read directly
+            # (names rebound or deleted in a class body are resolved at run time, known finding
+            #  C13-class-body-rebinding: not judged here)
+            stored = set(i.argval for i in ins if i.opname in ('STORE_NAME', 'DELETE_NAME', 'IMPORT_NAME', 'IMPORT_FROM'))
+            loads = set(i.argval for i in ins if i.opname in ('LOAD_NAME', 'LOAD_GLOBAL'))
+            loads -= stored | SCOPE_HELPERS | SCOPE_KNOWN | SCOPE_IMPLICIT
+            if loads:
+                problems.append(['not-looked-up', path, sorted(loads)])
+        for a, b in zip(oc, tc):
+            walk(a, b, path + [a.co_name])
+    walk(ref, real, [])
+    return ('bad' if problems else ('unreachable-code' if skipped else 'ok')), problems
+
+
+def oracle_scope(case):
+    st, problems = scope_problems(case['src'])
+    if st != 'bad':
+        return None
+    return {'case': case, 'what': "names are resolved as CPython's compiler resolves them: function locals stay locals, every "
+                                  'other name load goes through the lookup functions',
+            'expected': 'no difference', 'observed': problems[:4]}
+
+
 def effect_kind(case):
     import builtins
     from harness.props import c03
@@ -324,6 +399,24 @@ HAND_EFFECT = [
     ('def f():\n    def g(p: a, *q: a, k: a = 1) -> a:\n        return p\n    return sorted(g.__annotations__.items())\nr = f()', {'a': 4}),
 ]
 
+
+HAND_SCOPE = [
+    'class A:\n    def m(self): return 1\nclass B(A):\n    def m(self): return super().m() + 1\n',
+    'def f():\n    with cm() as w:\n        pass\n    return w\n',
+    'def f():\n    def g(p: T, *q: T, k: T = 1) -> T:\n        return p\n    return g\n',
+    'def f():\n    def g(): return n\n    n = 5\n    return g()\n',
+    'class K:\n    a = 1\n    def m(self): return a\n',
+    'def f(a, /, b, *c, d, **e):\n    return (a, b, c, d, e, x)\n',
+    'def f():\n    import os.path as p, sys\n    from os import sep\n    return (p, sys, sep, os)\n',
+    'def f():\n    for i, (j, *k) in z:\n        pass\n    return (i, j, k)\n',
+    'def f():\n    x = [a for a in b if a for c in a]\n    return (x, a, b, c)\n',
+    'def f():\n    try:\n        t = 1\n    except E:\n        u = 2\n    else:\n        v = 3\n    finally:\n        w = 4\n    return (t, u, v, w, E)\n',
+    'def f():\n    class C(B, metaclass=M):\n        y = x\n        def m(self, d=y): return (y, d, C)\n    return C\n',
+    'def f():\n    del n\n    return n\n',
+    'f = lambda a, b=c, *d, e=g, **h: (a, b, c, d, e, g, h)\n',
+    'def f():\n    return (lambda: q)() + (lambda q: q)(1) + len([q for q in r])\n',
+    '@deco(arg)\ndef f(): return deco\n',
+]
 
 def feature_key(case):
     """non-triviality: the set of node types of the original tree (more than a bare atom)"""
@@ -632,6 +725,28 @@ def shard(arg):
         for seg in G.read_statements(f):
             corpus.append({'mode': 'exec', 'src': seg, 'via': 'raw'})
     run_cases(corpus, res, 'corpus')
+    # name resolution against the compiler: corpus statements, generated statements and programs
+    scope_srcs = [c['src'] for c in corpus] + [c['src'] for c in cases if c['mode'] == 'exec'] + \
+        [s_ for s_, _ in HAND_EFFECT] + HAND_SCOPE
+    for _ in range(n_eff):
+        src = G.unparse_ok(pg.program(), 'exec')
+        if src is not None:
+            scope_srcs.append(src)
+    for src in scope_srcs:
+        sc = {'mode': 'exec', 'via': 'scope', 'src': src}
+        res.evaluations += 1
+        try:
+            st, problems = scope_problems(src)
+        except RecursionError:
+            res.count('scope:recursion-limit')
+            continue
+        res.count('scope:' + st)
+        if st == 'ok':
+            k = feature_key(sc)
+            if k:
+                res.nontrivial.add('scope:' + k)
+        if st == 'bad':
+            res.failures.append(oracle_scope(sc))
     compare_model(cases + corpus, res)
     return res
 
